@@ -301,3 +301,38 @@ Section Pipeline.
       + rewrite Hdec; try assumption; [rewrite Hcat; reflexivity|apply chunks_of_nonempty; exact Hne|lia].
   Qed.
 End Pipeline.
+
+(* ---------------- the whole path ---------------- *)
+Theorem end_to_end (P : prims) (fx : fixes) :
+  fx_pad_sign fx = true -> fx_budget fx = true -> fx_opn_budget fx = true ->
+  forall (S : sender) (R : receiver), link P S R ->
+  forall (t : mtype) (req seq max : Z) (data : bytes),
+  0 <= req < U32 -> data <> [] -> len data <= 1073741824 -> 0 <= seq -> seq + len data < U32 ->
+  (max = 0 \/ src_min_chunk <= max) ->
+  exists parts,
+    let cs := mk_chunks S t seq req parts in
+    encode fx S t seq req max data = Ok cs /\ parts <> [] /\ concat parts = data /\
+    (* the i-th chunk: sequence number, request id, final flag, and its trip through the channel *)
+    (forall i b, nth_error parts i = Some b ->
+       let plain := new_chunk S t (if Nat.eqb (Datatypes.S i) (length parts) then 1 else 0) (seq + Z.of_nat i) req b in
+       nth_error cs i = Some plain /\
+       exists sec, apply_security P fx S t plain = Ok sec /\
+                   recv P fx R sec = (Ok plain, r_policy R) /\
+                   (0 < max -> len sec <= max)) /\
+    (* the received chunks are accepted and reassemble to the message *)
+    validate_chunks P fx R seq cs = Ok (seq + Z.of_nat (length parts) - 1) /\
+    decode P R cs = Ok data.
+Proof.
+  intros F1 F2 F3 S R L t req seq max data Hreq Hne Hlen H0 Hseq Hmax.
+  destruct (encode_ok P fx F1 F2 F3 S R L t req Hreq seq max data Hne Hlen H0 Hseq Hmax)
+    as (parts & Henc & Hpne & Hcat & Hsm & Hn & Hsz & Hval & Hdec).
+  exists parts. cbn zeta. repeat split; try assumption.
+  - apply mk_chunks_nth. exact H.
+  - rename H into Hnth.
+    assert (Hb : small b) by (rewrite Forall_forall in Hsm; apply Hsm; eapply nth_error_In; exact Hnth).
+    assert (Hfin : let f := if Nat.eqb (Datatypes.S i) (length parts) then 1 else 0 in f = 0 \/ f = 1 \/ f = 2)
+      by (cbn zeta; destruct (Nat.eqb (Datatypes.S i) (length parts)); lia).
+    destruct (recv_send P fx F1 S R L t _ (seq + Z.of_nat i) req b Hfin Hb) as (sec & Ha & Hr & Hl).
+    exists sec. repeat split; try assumption.
+    intro Hm. rewrite Hl. specialize (Hsz Hm). rewrite Forall_forall in Hsz. apply Hsz. eapply nth_error_In; exact Hnth.
+Qed.
